@@ -108,6 +108,8 @@ func Defects(t M) []Mutation {
 			}
 		}
 		envDefects("env-malformed", p.With("env"), asList(e["env"]))
+		// lists are lists: an entry may occur more than once (repeated options, arguments, variables)
+		add("list-with-repeated-entries@"+level+"/env", p.With("env"), "set", L{"A=1", "B=2", "A=1", "A=1"}, val)
 
 		dns := asList(e["deviceNodes"])
 		for _, i := range firstLast(len(dns)) {
@@ -148,6 +150,8 @@ func Defects(t M) []Mutation {
 			add("hook-path-missing@"+pl, hp.With("path"), "del", nil, inv)
 			hm, _ := hooks[i].(M)
 			envDefects("hook-env-malformed@hook", hp.With("env"), asList(hm["env"]))
+			add("list-with-repeated-entries@"+pl+"/hook-args", hp.With("args"), "set", L{"hook", "--link", "a", "--link", "a"}, val)
+			add("list-with-repeated-entries@"+pl+"/hook-env", hp.With("env"), "set", L{"H=1", "H=1"}, val)
 			add("hook-null-entry@"+pl, hp, "set", nil, inv)
 			add("unknown-member@hook/"+pl, hp.With("bogus"), "set", "x", inv)
 		}
@@ -164,6 +168,7 @@ func Defects(t M) []Mutation {
 			add("mount-hostpath-missing@"+pl, mp.With("hostPath"), "del", nil, inv)
 			add("mount-containerpath-empty@"+pl, mp.With("containerPath"), "set", "", inv)
 			add("mount-containerpath-missing@"+pl, mp.With("containerPath"), "del", nil, inv)
+			add("list-with-repeated-entries@"+pl+"/mount-options", mp.With("options"), "set", L{"ro", "bind", "ro"}, val)
 			add("mount-null-entry@"+pl, mp, "set", nil, inv)
 			add("unknown-member@mount/"+pl, mp.With("bogus"), "set", "x", inv)
 		}
